@@ -6,7 +6,7 @@
 (*   ([1]T, [2]T), map (map[string]T), s1 (struct{A T}), s2 (struct{A string; B T}),  *)
 (*   iface (static type any holding a value whose dynamic type is the rest of the     *)
 (*   chain).  Leaves: the supported kinds, time.Time, and a fixed pool of NAMED types *)
-(*   (MyInt int, MyStr string, MyFloat float64, MyBool bool, Duration int64,          *)
+(*   (MyInt int, MyStr string, MyFloat float64, MyBool bool, Duration int64, MyU64, MyU8, MyI8, MyF32,          *)
 (*   MyList []int, MyMap map[string]string, Rec struct{A string; B int64} with        *)
 (*   methods).  Unsupported on purpose: complex128, chan, func, imap (map[int]T).     *)
 (* VALUE CLASSES.  zero, min, max, typ select the leaf value (symbolic: the decimal   *)
@@ -26,14 +26,15 @@ NilNode == Leaf("nil", "")
 Ctors == {"ptr", "slice", "arr1", "arr2", "map", "s1", "s2", "iface"}
 Scalars == {"bool", "int8", "int16", "int32", "int64", "int", "uint8", "uint16", "uint32", "uint64",
             "uint", "float32", "float64", "string", "time"}
-NamedScalars == {"MyInt", "MyStr", "MyFloat", "MyBool", "Duration"}
+NamedScalars == {"MyInt", "MyStr", "MyFloat", "MyBool", "Duration", "MyU64", "MyU8", "MyI8", "MyF32"}
 NamedComposites == {"MyList", "MyMap", "Rec"}
 Leaves == Scalars \cup NamedScalars \cup NamedComposites
 UnsupportedLeaves == {"complex128", "chan", "func"}
 
 \* "named T -> as its underlying T"
 Kind(leaf) == CASE leaf = "MyInt" -> "int" [] leaf = "MyStr" -> "string" [] leaf = "MyFloat" -> "float64"
-                [] leaf = "MyBool" -> "bool" [] leaf = "Duration" -> "int64" [] OTHER -> leaf
+                [] leaf = "MyBool" -> "bool" [] leaf = "Duration" -> "int64" [] leaf = "MyU64" -> "uint64"
+                [] leaf = "MyU8" -> "uint8" [] leaf = "MyI8" -> "int8" [] leaf = "MyF32" -> "float32" [] OTHER -> leaf
 Under(leaf) == CASE leaf = "MyList" -> <<"slice", "int">> [] leaf = "MyMap" -> <<"map", "string">>
                  [] leaf = "Rec" -> <<"s2", "int64">> [] OTHER -> <<leaf>>
 Last(s) == s[Len(s)]
@@ -214,7 +215,7 @@ Types(d) == {p \o <<l>> : p \in Prefixes(d), l \in Leaves}
 \* the algebra is split by leaf so that several TLC processes can enumerate it in parallel
 LeafSeq == <<"bool", "int8", "int16", "int32", "int64", "int", "uint8", "uint16", "uint32", "uint64", "uint",
              "float32", "float64", "string", "time", "MyInt", "MyStr", "MyFloat", "MyBool", "Duration",
-             "MyList", "MyMap", "Rec">>
+             "MyList", "MyMap", "Rec", "MyU64", "MyU8", "MyI8", "MyF32">>
 ShardLeaves(k, n) == {LeafSeq[i] : i \in {j \in 1..Len(LeafSeq) : j % n = k}}
 ShardTypes(d, k, n) == {p \o <<l>> : p \in Prefixes(d), l \in ShardLeaves(k, n)}
 UnsupportedTypes == {p \o <<l>> : p \in Prefixes(1), l \in UnsupportedLeaves} \cup {<<"imap", "int">>, <<"imap", "string">>}
@@ -238,7 +239,7 @@ UnsupportedCases == {[t |-> t, c |-> c, r |-> r, w |-> NoLit] : <<t, c, r>> \in
 \* Script-originated values (route write_lit: dst.F = <literal>; dst.F): integers around every boundary, a float,
 \* a string and nil written into integer slots under at most one constructor, and lists of the wrong length
 \* written into arrays.  Representable(t, w) decides whether Go may accept the write.
-LitLeaves == IntKinds \cup {"MyInt", "Duration"}
+LitLeaves == IntKinds \cup {"MyInt", "Duration", "MyU64", "MyI8"}
 LitScalars == {Leaf("int", IntOrder[i]) : i \in {j \in 1..Len(IntOrder) : ScriptIntOK(IntOrder[j])}}
               \cup {Leaf("float", "1.5"), Leaf("str", "hi"), NilNode}
 Seven == Leaf("int", "7")
